@@ -123,9 +123,22 @@ func c13Confusable(rt *rapid.T, l string, bases []string) string {
 var c13ConfBases = []string{"users", "kind", "id", "name", "items", "t1", "sku", "is_ok"}
 var c13ConfTypes = []string{"SMALLINT", "TEXT", "BIGINT", "INTEGER", "VARCHAR(10)", "TIMESTAMP", "DECIMAL(10, 2)"}
 
+// c13Mangled: an allow-listed base type followed by parenthesis games - a `)` before its `(`, a
+// second group, nesting, an unclosed group - with and without SQL behind it. Balanced overall is
+// not the same as well-formed.
+var c13TypeTails = []string{" ) INHERITS (zz_sentinel", " ) SELECT v FROM zz_sentinel WHERE (1", ") (", " ) x (", " ( )", "(1)(2)", "((10))", "(10", "10)", " ) , evil TEXT (", ")(", " (10) ) (", " (1,2,3,4)", "(-1)", "( 10 )", " )"}
+
+func c13Mangled(rt *rapid.T) string {
+	base := []string{"INT", "INTEGER", "VARCHAR(10)", "DECIMAL(10, 2)", "TEXT", "BIGINT"}[lang.Spread(rt, "mgb", 6)]
+	return base + c13TypeTails[lang.Spread(rt, "mgt", len(c13TypeTails))]
+}
+
 func c13Type(rt *rapid.T) string {
 	if lang.Spread(rt, "tyconf", 100) < 8 {
 		return c13Confusable(rt, "ty", c13ConfTypes)
+	}
+	if lang.Spread(rt, "tymangle", 100) < 12 {
+		return c13Mangled(rt)
 	}
 	return c13Pick(rt, "ty", c13GoodTypes, c13BadTypes, 25)
 }
